@@ -1059,7 +1059,7 @@ def linear_lookup_int(fr, base, key):
         return None
     n = len(base)
     k = n.bit_length() - 1
-    if n != 1 << k or k == 0 or not all(isinstance(e, int) and not isinstance(e, bool) and e >= 0 for e in base) or base[0] != 0:
+    if n == 0 or n != 1 << k or k == 0 or not all(isinstance(e, int) and not isinstance(e, bool) and e >= 0 for e in base) or base[0] != 0:
         return None
     cache = fr.I.repo._cache
     ck = ("linear-int-table", id(base), n)
